@@ -20,6 +20,7 @@ def Op.isLeafOp (o : Op) : Bool := o = .literal || o = .wild || o = .regexp
 /-- a raw value is acceptable under a leaf operator: Wild and Regexp hold strings -/
 def leafKindOK (o : Op) : Node → Bool
   | .prim (.str _) => true
+  | .prim (.col _) => false      -- a Column only ever stands in field position, never in a list or a boundary
   | .prim _ => o = .literal
   | .nil => o = .literal
   | _ => false
